@@ -1,3 +1,37 @@
-import Mkdb.Spec.Query
+import Mkdb.Proofs.NoPanicExec
+/-!
+# C18 — no statement can crash the engine (SELECT evaluation)
+
+Property theorems only (proofs in `Mkdb/Proofs/NoPanicExec.lean`).  Quantifier: every
+database content whose rows have one value per column (any values: NULLs, any types), every
+SELECT the parser can produce.  Termination is structural recursion on the row lists.
+-/
 namespace Mkdb.Exec
+open Mkdb.Sql Mkdb.Exec.NoPanicP
+
+/-- **C18.no_panic_partial**: on well-shaped tables, whatever the query (unknown, ambiguous or
+duplicated columns, wrong-typed comparisons, AVG over non-integers, empty tables, NULLs …),
+evaluation returns rows or an error value; the single remaining panic of the model is the
+sort comparator meeting two non-NULL values of different types in one ORDER BY column. -/
+theorem C18_no_panic_partial {fetch : Bytes → Option Table} (hw : WellShaped fetch) (q : Select)
+    (hq : (∃ a, q.list = [⟨.star, a⟩]) ∨ isStar q.list = false) (s : String)
+    (h : evaluateSelect fetch q = .panic s) : s = "sortColumns: no comparison available" :=
+  no_panic_except_sort_parsed_shape hw q hq s h
+
+/-- **C18.sort_safe**: that remaining panic cannot occur when every ORDER BY column holds
+values of one type or NULL — which is what typed storage (C08) delivers. -/
+theorem C18_sort_safe (ob : List SortSpec) (hdr : List Field) (rows : List Row)
+    (h : ∀ sp ∈ ob, ∀ i, findColumn sp.key hdr = .ok i →
+      ∀ a ∈ rows, ∀ b ∈ rows, Comparable ((a[i]?).getD .null) ((b[i]?).getD .null))
+    (s : String) : sortColumns ob hdr rows ≠ .panic s :=
+  sort_safe_of_comparable ob hdr rows h s
+
+/-- the shape hypothesis of `C18_no_panic_partial` is necessary: a select list that starts with
+`*` and also holds an aggregate (which the parser never builds) would index past the row -/
+theorem C18_star_aggregate_counterexample :
+    evaluateSelect (fun _ => some ⟨[[105]], [[.int 1]]⟩)
+      { list := [⟨.star, []⟩, ⟨.count none, []⟩, ⟨.expr (.val (.lit (.int 1))), []⟩],
+        from_ := some (.table ⟨[116], none⟩) } = .panic "aggregateRows: Vals[colIdx]" :=
+  star_aggregate_panics
+
 end Mkdb.Exec
